@@ -324,7 +324,7 @@ impl Property for C02 {
         C02
     }
     fn n_cases(&self, tier: Tier) -> u64 {
-        tier.pick(150_000, 5_000_000)
+        tier.pick(400_000, 5_000_000)
     }
     fn chunk(&self, _tier: Tier) -> u64 {
         10_000
